@@ -97,6 +97,7 @@ struct Loop
 VH_GROUP(api)
 {
     vh::ubsan_counts() = false;
+#ifndef C14_WIDE     // the probes do not depend on the type list: report them once (the 5-alternative build is in both tiers)
     if (ctx.take())
     {
         ++ctx.evaluations;
@@ -119,6 +120,7 @@ VH_GROUP(api)
 #endif
         ++ctx.witness["compile_probes_reported"];
     }
+#endif
     mp::mp_for_each<mp::mp_iota_c<N>>(Loop{ctx, int(ctx.B("S", 3))});
 }
 
